@@ -2,11 +2,13 @@ CONSTANT Mode = "cols"
 CONSTANT MaxSteps = 2
 CONSTANT MaxZero = 1
 CONSTANT RowCounts = {2, 3, 4}
+CONSTANT PadCounts = {8192, 16384}
 CONSTANT NGen = 3
 SPECIFICATION Spec
 INVARIANT TypeOK
 INVARIANT Consistent
 INVARIANT GramInvariant
 INVARIANT LawC08
+INVARIANT PadLaw
 INVARIANT Export
 CHECK_DEADLOCK FALSE
